@@ -213,3 +213,58 @@ PROPS["C13"] = dict(
     trusted_base=SEARCH_TRUST,
     open=["C13_mirror_statement (game tree of mirror b = negated game tree of b up to child order) is NOT proved in Coq; decided per run on mirrored pairs"],
 )
+
+PROPS["C10"] = dict(
+    jobs=lambda ctx: [dict(sub=["iter", q(ctx, 1500, 60000)], shards=16, timeout=3000)],
+    relevant=r".",
+    rule="op sequences (next, len, is_empty, size_hint, set_mask, remove, remove_move, clone/continue-on-clone/back) of length 2..26 (+ a final drain under a "
+         "random mask and its complement) on the shared position stream incl. positions with promotions, en passant and castling; legals() and "
+         "legals_masked(M) starts; masks from {full, enemy men, complement, random, single destinations, everything but e.p./castling targets}; 5/6 of the "
+         "sequences avoid the two known classes, 1/6 are unrestricted; every op's result compared with the concrete model AND checked by the abstract "
+         "monitor (multiset of owed moves) fed with the implementation's own answers",
+    trusted_base=CORE_TRUST + ["spec/IterSpec.v is the abstract iterator the theorems refine to"],
+    assumptions=["drain/cover theorems carry |content| <= 400 (the model's drain fuel; a real position has at most 218 moves)"],
+)
+PROPS["C15"] = dict(
+    jobs=lambda ctx: [dict(sub=["bot", q(ctx, 14, 300)], shards=16, timeout=3000, needs_bot=True)],
+    relevant=r".",
+    rule="the chess-bot cdylib built from /repo is loaded through ChessApiRef::load_from_file and driven through ChessEngine: histories of 40..300 calls "
+         "(set_board from corpus FENs, make_move with reversible 4-ply cycles repeated 1..4 times so positions recur - incl. by other move orders and with "
+         "rights/marker differing -, random legal moves, illegal / near-miss moves, board(), evaluate with counting timeouts, re-set_board in mid-history); "
+         "plus one 1200-move shuffle that repeats positions 300 times; monitor = list of rules-level positions since the last set_board",
+    trusted_base=SEARCH_TRUST + ["model/Bot.v transcribes chess-bot/src/lib.rs; abi_stable loading/layout checks and HashMap (keyed by zobrist then PartialEq) are modelled, not verified"],
+    open=["C15_threefold_statement (hash-keyed table = occurrence count) is NOT proved in Coq; decided per run by the history monitor",
+          "interpretation: the position handed to set_board is not counted as an occurrence (neither the bot nor the CLI inserts it)"],
+)
+
+def c07_jobs(ctx):
+    jobs = []
+    for prof in ("checked", "release"):
+        extra = dict(profile=prof, native=True)
+        jobs += [
+            dict(sub=["positions", q(ctx, 400, 20000), 1, 1, 25], shards=q(ctx, 4, 16), timeout=3000, **extra),
+            dict(sub=["iter", q(ctx, 600, 30000)], shards=q(ctx, 2, 16), timeout=3000, **extra),
+            dict(sub=["fen", q(ctx, 3000, 200000), q(ctx, 1, 6)], shards=q(ctx, 2, 16), timeout=3000, **extra),
+            dict(sub=["builder", q(ctx, 2000, 100000)], shards=1, timeout=3000, **extra),
+            dict(sub=["search", q(ctx, 6, 200), q(ctx, 300, 3000)], shards=q(ctx, 4, 16), timeout=3000, **extra),
+            dict(sub=["magic", q(ctx, 1, 50)], timeout=3000, **extra),
+            dict(sub=["book"], timeout=3000, **extra),
+            dict(sub=["bitboard", q(ctx, 500, 50000)], timeout=3000, **extra),
+        ]
+    jobs.append(dict(sub=["epfamily", q(ctx, 60, 2)], shards=q(ctx, 1, 8), timeout=3000))
+    return jobs
+
+
+PROPS["C07"] = dict(
+    tables=["rook_moves", "bishop_moves", "book"],
+    jobs=c07_jobs,
+    relevant=r"never-panics|never panics|TRAP|harness-crash|CRASH|parser-model-traps",
+    rule="trap runs: every safe operation (parse, build, generate, mask/iterate/remove, apply through the checked ops, hash, print, search under counting "
+         "timeouts incl. terminal roots beyond 65536 polls, full book walk, every blocker subset of every slider square, bitboard iterators) on the shared "
+         "position stream incl. the extremal 18-entry move lists (16 mobile men + two en-passant capturers), in a build with overflow checks, debug "
+         "assertions and std's unsafe-precondition checks (any violation = panic/abort seen as TRAP or as a dead harness) and in a plain release build",
+    trusted_base=CORE_TRUST + ["memory safety of the unsafe blocks GIVEN their preconditions (set_mask's pointer walk, arrayvec, abi_stable) is Rust's / the crates', "
+                              "not modelled: C07 is partial in that sense", "panic / abort detection: catch_unwind + process exit status"],
+    open=["a Gallina model cannot exhibit undefined behaviour; what is proved are preconditions of unchecked operations (index ranges, non-empty sets, capacity, "
+          "saturation), each under the stated invariant; invariant preservation by apply (kings never captured, partition kept) is decided by correspondence only"],
+)
